@@ -651,6 +651,14 @@ impl Session {
             min(req.mtu, MAX_MTU)
         };
 
+        if req.window_size == 0 {
+            warn!("RX handshake integrity failure: window size 0");
+            Err(ErrorCode::InvalidData)?;
+        }
+
+        // The peer might report an MTU below the minimum ATT MTU
+        let mtu = mtu.clamp(MIN_MTU, MAX_MTU);
+
         // Remove the header as we need to report back the payload MTU
         // and we'll use the payload MTU anyway for all operations
         let mtu = mtu - GATT_HEADER_SIZE as u16;
@@ -677,6 +685,17 @@ impl Session {
         RecvWindow::check_handshake_integrity(&hdr)?;
 
         let resp = HandshakeResp::from(payload.iter().copied())?;
+
+        if resp.mtu < MIN_MTU - GATT_HEADER_SIZE as u16
+            || resp.mtu > MAX_MTU - GATT_HEADER_SIZE as u16
+            || resp.window_size == 0
+        {
+            warn!(
+                "RX handshake integrity failure: MTU {} / window size {} out of range",
+                resp.mtu, resp.window_size
+            );
+            Err(ErrorCode::InvalidData)?;
+        }
 
         debug!("\n>>RCV (BTP IO) {} [{}]\n      HANDSHAKE RESP {:?}\nSelected version: {}, MTU: {}, window size: {}", address, hdr, resp, resp.version, resp.mtu, resp.window_size);
 
